@@ -172,4 +172,8 @@ EmitEdge == hist = <<>> \/ (/\ PrintT(<<"EDGE", ToJson([c |-> Cfg, s |-> prev, e
                             /\ (~ProbeB \/ ~sync \/ PrintT(<<"EDGE", ToJson([c |-> Cfg, s |-> prev, h |-> <<hist[Len(hist)]>>, d |-> View, p |-> ProbeNoAbort])>>))
                             /\ (PumpN = 0 \/ prev # View \/ IsInit(lastl) \/ PrintT(<<"EDGE", ToJson(PumpRec)>>)))
 EmitWalk == Len(hist) < WalkLen \/ (PrintT(<<"WALK", ToJson([c |-> Cfg, h |-> hist, p |-> Probe])>>) /\ FALSE)
+\* VIEW of the model-checking configurations: TLC evaluates invariants only on states it has not seen before, and "seen" is
+\* decided on the VIEW; a step verdict kept in a ghost variable must therefore be part of it, or a violating edge INTO A KNOWN
+\* STATE would be discarded unexamined (the generation configurations keep the plain View: the verdict is not behaviour)
+ViewM == <<View, ok>>
 =============================================================================
